@@ -448,9 +448,11 @@ def task_facts(f):
     _need(_body(_find(st.body, FN, "start", "SyncTasks")) == [
         "self.transport.connect()", "poll_thread = threading.Thread(target=self._poll_queue)", "poll_thread.start()"],
         "SyncTasks.start shape")
-    _need(_body(_find(st.body, FN, "_poll_queue", "SyncTasks")) == [
-        "while not self._stop_event.is_set():\n    reply = self.run_job()\n    self.transport.send(reply)\n"
-        "    if self.queue:\n        continue\n    time.sleep(0.02)"], "SyncTasks._poll_queue shape")
+    head = "while not self._stop_event.is_set():\n    reply = self.run_job()\n    self.transport.send(reply)\n"
+    _need(_body(_find(st.body, FN, "_poll_queue", "SyncTasks")) in (
+        [head + "    if self.queue:\n        continue\n    time.sleep(0.02)"],
+        [head + "    if not self.queue:\n        time.sleep(0.02)"]),           # the same loop said differently
+        "SyncTasks._poll_queue shape")
     tail = ["if not self.persistence:\n    return",
             "if self._cancel_save is not None:\n    self._cancel_save()\n    self._cancel_save = None",
             "self.persistence.save_sensors()"]
